@@ -244,6 +244,17 @@ func Long() []*Grammar {
 	add("nest-tail", "a", 300, false, Seq(Ref(1), eof()), Alt(Seq(a(), Ref(1), Opt(x())), b()))
 	add("cap-act", "ab ", 1000, false, Seq(Star(Seq(Cap(Plus(Class(R('a', 'c')))), Act(), Opt(Lit(" ")))), eof()))
 	add("choice-loop", "abcd", 1000, false, Seq(Star(Alt(Seq(a(), Ref(1)), Seq(Class(R('b', 'c')), Act()), Lit("d"))), eof()), Seq(b(), Act()))
+	// more rules than fit one byte: rule numbers 256.. appear in tokens, memo keys and the rule
+	// table; the chain is walked to its end by an input of 259 'a' and one 'b'
+	chain := make([]*E, 260)
+	for i := range chain {
+		if i < len(chain)-1 {
+			chain[i] = Alt(Seq(a(), Ref(i+1)), b())
+		} else {
+			chain[i] = b()
+		}
+	}
+	add("many-rules", "a", 300, false, chain...)
 	return gs
 }
 
